@@ -79,17 +79,19 @@ StopCollector ==
   /\ buf' = [t \in Traces |-> {}]
   /\ UNCHANGED <<hny, decided, nextId>>
 
-\* DirectTransmission.Stop: everything pending is sent
-StopTransmission ==
+\* DirectTransmission.Stop: everything pending is sent - also when Honeycomb throttles the final
+\* flush (429 with a short Retry-After on the first attempt of each batch): the batch is retried
+\* after the delay and delivered
+StopTransmission(throttled) ==
   /\ phase = "collector-stopped"
   /\ phase' = "stopped"
   /\ hny' = hny \cup pending /\ pending' = {}
-  /\ act' = [name |-> "StopTransmission"]
+  /\ act' = [name |-> "StopTransmission", throttled |-> throttled]
   /\ UNCHANGED <<buf, lost, decided, nextId>>
 
-Next == (\E t \in Traces : Span(t)) \/ Tick \/ Dispatch \/ StopCollector \/ StopTransmission
+Next == (\E t \in Traces : Span(t)) \/ Tick \/ Dispatch \/ StopCollector \/ (\E th \in BOOLEAN : StopTransmission(th))
 Spec == Init /\ [][Next]_vars
-FairSpec == Spec /\ WF_vars(StopCollector) /\ WF_vars(StopTransmission)
+FairSpec == Spec /\ WF_vars(StopCollector) /\ WF_vars(\E th \in BOOLEAN : StopTransmission(th))
 
 TypeOK == phase \in {"running", "collector-stopped", "stopped"}
 \* C36: after a graceful stop nothing is buffered or pending, and (ideal) nothing kept was lost
